@@ -8,7 +8,6 @@ configuration.
 """
 
 import hashlib
-import zipfile
 import numpy as np
 from pathlib import Path
 
@@ -72,8 +71,10 @@ class GreensFunctionCache:
                 data = np.load(path)
                 grid = (data["X"], data["Y"], data["Z"])
                 result = grid, data["conc"], data["flx"]
-            except (OSError, ValueError, EOFError, KeyError, zipfile.BadZipFile):
-                # truncated or corrupt entry (e.g. interrupted write): treat as a miss
+            except Exception:
+                # truncated or corrupt entry (e.g. interrupted write): treat as a miss.
+                # A damaged archive can raise almost anything (BadZipFile, EOFError,
+                # NotImplementedError for a mangled version/compression field, ...).
                 logger.warning("Ignoring unreadable cache entry: %s", key[:12])
                 return None
             logger.debug("Cache hit: %s", key[:12])
